@@ -3,7 +3,8 @@ import copy
 from collections import Counter
 
 from harness import flatlib as fl
-from harness.core import Property
+from harness.core import Property, canon
+from harness.props import g1common as G
 
 
 def _lists_in(el):
@@ -98,10 +99,19 @@ def apply_mutations(root, schema, kinds, muts):
     return applied
 
 
-def expected_pairs(el, sep, names):
+def expected_pairs(el, sep, names, dict_by_name=False):
     """Independent recursive computation of the pairs an element must emit (any order): uses only
-    children, flattenable, children_flattenable, names/keys and POSITIONS."""
+    children, flattenable, children_flattenable, names/keys and POSITIONS.  `dict_by_name`: a member
+    of a mapping contributes its own `.name` (tree-history family: an Element stored under a key may
+    carry a different name — the property speaks of NAMES on the path) instead of its key."""
     import flatland
+    if dict_by_name:
+        out = [(sep.join(names), el.u)] if el.flattenable else []
+        if el.children_flattenable:
+            for i, child in enumerate(el.children):
+                out += expected_pairs(child, sep, names + ([str(i)] if isinstance(el, flatland.List) else [])
+                                      + ([child.name] if child.name is not None else []), True)
+        return out
     out = []
     if el.flattenable:
         out.append((sep.join(names), el.u))
@@ -153,12 +163,220 @@ def build(case):
     return el
 
 
+# ------------------------------------------------------------------ tree-history family
+# Histories of container calls (the case format, executor and generators of C08/C09:
+# harness/props/g1common.py) run on the real library AND on the Lean tree model
+# (Flatland/Tree.lean through Flatland/TreeJson.lean); after the construction and after every call
+# `root.flatten(sep)` is compared with `Flatland.C07Tree.flattenTree` / `flattenCode` of the model's tree.
+
+TREE_SEPS = ["_", "_", "_", ".", "__", "-", "/", "_0_"]
+QUERY_OPS = ("len", "getitem", "getslice", "contains", "index", "count", "observe", "reversed", "imul_bad")
+
+
+def is_tree(case):
+    return case.get("family") == "tree-history"
+
+
+def _lists_of(ex):
+    import flatland
+    return [e for e, _ in ex.reach() if isinstance(e, flatland.List)]
+
+
+def slots_positional(ex):
+    """every List of the tree names the slot of member i `str(i)` (read through the public API:
+    `member.parent.name`)"""
+    for lst in _lists_of(ex):
+        names = [getattr(getattr(m, "parent", None), "name", None) for m in lst]
+        if names != [str(i) for i in range(len(names))]:
+            return False
+    return True
+
+
+class TreeExec(G.Exec):
+    """`{"member": j, "same": bool, "of": k}`: the Element handed to the call is the j-th member, of the
+    needed class, of the target itself (`same`) or of the k-th sequence of the tree — an element that
+    ALREADY sits in the tree (oracle-only: the Lean tree model has no aliasing)."""
+
+    def mk_arg0(self, target, key, a):
+        if "member" in a:
+            seqs = [c for c in self.containers() if G.is_seq(c)]
+            src = target if a.get("same", True) or not seqs else seqs[a.get("of", 0) % len(seqs)]
+            need = self.needed_schema(target, key)
+            ms = [m for m in src if need is not None and type(m) is need] if G.is_seq(src) else []
+            if not ms:
+                raise G.Skip("nomember")
+            return ("elem", ms[a["member"] % len(ms)])
+        return super().mk_arg0(target, key, a)
+
+
+REJECTED_INDEXES = [9999, -9999, 9999, "1", "0", None, 2.5]
+
+
+def name_path_dup(ex):
+    """two emitted elements on the same NAME path that are not members of one Array / MultiValue"""
+    import flatland
+    seen = {}
+    for e, _ in ex.reach():
+        if not getattr(e, "flattenable", False):
+            continue
+        key = tuple(path_names(e))
+        # an element stored in a mapping under a key that is not its name (an instance of a RENAMED subclass assigned to
+        # a SparseDict key: the state of the open finding KF-C10-a / KF-C13-c) can share its name with a sibling; the
+        # uniqueness clause is about schemas, where a mapping's keys ARE its members' names — such elements are skipped
+        chain = [e] + ex.parents(e)
+        if any(isinstance(p, dict) and dict.get(p, c.name) is not c for c, p in zip(chain, chain[1:])):
+            continue
+        # the outermost Array/MultiValue above the element owns the shared paths (its members repeat one name path)
+        owner = id(e)
+        for p in ex.parents(e):
+            if isinstance(p, flatland.Array):
+                owner = id(p)
+        if key in seen and seen[key] != owner:
+            return list(key)
+        seen.setdefault(key, owner)
+    return None
+
+
+def tree_view(sep):
+    def view(ex, info):
+        pairs = [list(p) for p in ex.root.flatten(sep)]
+        ran = "%s:%s" % (info["kind"], info["op"]["op"]) if info.get("op") and info.get("kind") else None
+        return {"flatten": pairs, "flatten_code": pairs, "positional": slots_positional(ex), "spec_agrees": True,
+                "_ran": ran}
+    return view
+
+
+def tree_check(sep):
+    def check(ex, info):
+        import flatland
+        root = ex.root
+        fails = []
+        # rejected calls that were handed an element ALREADY in the tree, by the shape of the call (class predicates of
+        # the open findings KF-C07-b / KF-C07-c; everything else that fails is reported)
+        causes = ex.__dict__.setdefault("_c07_causes", [])
+        o = info.get("op") or {}
+        if info.get("raised") is not None and "member" in (o.get("a") or {}):
+            tgt = info.get("target")
+            int_index = isinstance(o.get("i"), int) and not isinstance(o.get("i"), bool)
+            if isinstance(tgt, flatland.List):
+                if o.get("op") == "insert" and not int_index:
+                    causes.append("list-insert-nonint-index-of-member")
+            elif o.get("op") in ("insert", "setitem"):
+                causes.append("array-rejected-placement-of-member")
+        got = root.flatten(sep)
+        exp = expected_pairs(root, sep, [root.name] if root.name is not None else [], dict_by_name=True)
+        op = (info.get("op") or {}).get("op") if not info.get("init") else "init:" + ex.case["init"]["route"]
+        if Counter(got) != Counter(exp):
+            fails.append({"clause": "keys-are-positions", "step": info["i"], "op": op,
+                          "expected": sorted(map(list, exp)), "observed": sorted(map(list, got))})
+        elif name_path_dup(ex) is not None:
+            fails.append({"clause": "name-paths-unique", "step": info["i"], "op": op,
+                          "expected": "only the members of one Array/MultiValue share a name path",
+                          "observed": name_path_dup(ex)})
+        elif not slots_positional(ex):
+            fails.append({"clause": "slots-named-by-position", "step": info["i"], "op": op,
+                          "expected": "slot i of every List is named str(i)",
+                          "observed": [[getattr(getattr(m, "parent", None), "name", None) for m in l] for l in _lists_of(ex)]})
+        for f in fails:
+            f["causes"] = list(causes)
+        return fails
+    return check
+
+
+def _tree_schema(rng, cid):
+    """schemas whose flat keys pass through List slots, often twice: List of Dict with a nested List"""
+    def sc(k, name=None, subs=(), **kw):
+        d = {"cid": cid(), "k": k, "name": name, "opt": False, "policy": "subset", "minreq": False, "isa": [],
+             "default": None, "subs": list(subs)}
+        d.update(kw)
+        return d
+    r = rng.random()
+    leaf = lambda name=None: sc(rng.choice(["integer", "string"]), name)
+    if r < 0.35:
+        inner = sc(rng.choice(["list", "list", "array", "multi"]), "n", [leaf(rng.choice([None, "m"]))])
+        fields = [leaf("x"), inner] if rng.random() < 0.7 else [inner, leaf("x"), leaf("y")]
+        member = sc(rng.choice(["dict", "dict", "sparse"]), rng.choice([None, None, "d"]), fields,
+                    policy=rng.choice(["subset", "duck"]))
+        return sc("list", rng.choice([None, "l"]), [member])
+    if r < 0.5:
+        return sc("list", rng.choice([None, "l"]), [sc("list", rng.choice([None, "m"]), [leaf(rng.choice([None, "s"]))])])
+    if r < 0.65:
+        return sc("list", rng.choice([None, "l"]), [leaf(rng.choice([None, "s"]))])
+    if r < 0.8:
+        return sc("dict", rng.choice([None, "r"]), [sc("list", "a", [leaf(rng.choice([None, "s"]))]),
+                                                   sc("list", "b", [sc("dict", None, [leaf("x"), leaf("y")])]), leaf("k")])
+    return G.gen_schema(rng, cid, rng.choice([2, 3, 3]), name=rng.choice([None, "r"]),
+                        kinds=["list", "list", "list", "dict", "sparse", "array", "multi"])
+
+
+def gen_tree_case(rng):
+    cid = G.Counter()
+    schema = _tree_schema(rng, cid)
+    hostile = rng.random() < 0.1
+    route = rng.choice(["ctor", "ctor_value", "ctor_value", "ctor_value", "set", "set", "from_defaults", "set_default"])
+    case = {"family": "tree-history", "sep": rng.choice(TREE_SEPS), "schema": schema,
+            "init": {"route": route, "value": G.gen_value(rng, schema, valid=not hostile)}}
+    conts = [s for s in G.walk_schemas(schema) if s["k"] in G.SEQ_KINDS + G.MAP_KINDS]
+    seqs = [s for s in conts if s["k"] in G.SEQ_KINDS]
+    lists = [s for s in seqs if s["k"] == "list"]
+    maps = [s for s in conts if s["k"] in G.MAP_KINDS]
+    ops = []
+    for _ in range(rng.choice([1, 2, 3, 4, 6, 8, 12])):
+        o = {"t": rng.randint(0, 7)}
+        if seqs:
+            sq = rng.choice(lists if lists and rng.random() < 0.7 else seqs)
+            for _retry in range(4):
+                o["s"] = G.gen_seq_op(rng, sq["subs"][0], valid=not hostile)
+                if o["s"]["op"] not in QUERY_OPS:
+                    break
+        if maps:
+            o["m"] = G.gen_map_op(rng, rng.choice(maps), valid=not hostile)
+        ops.append(o)
+    if lists and rng.random() < 0.12:
+        # REJECTED calls handed an element that already is a member (of the same List or of another sequence of the
+        # tree): `lst[len(lst)] = lst[0]`, `lst['1'] = other[2]`, `lst.insert('0', lst[1])` — nothing may move, flatten()
+        # and every later call must still see every member at its position.  Oracle-only (no aliasing in the Lean model).
+        case["nomodel"] = True
+        case["why_nomodel"] = "Element argument is an existing member (aliasing)"
+        for _ in range(rng.choice([1, 1, 2, 3])):
+            a = {"member": rng.randint(0, 4), "same": rng.random() < 0.6, "of": rng.randint(0, 5)}
+            bad = rng.choice(REJECTED_INDEXES)
+            if isinstance(bad, int) or rng.random() < 0.7:
+                op = {"op": "setitem", "i": bad, "a": a}
+            else:
+                op = {"op": "insert", "i": bad, "a": a}       # a non-integer index: TypeError before anything is placed
+            ops.insert(rng.randint(0, len(ops)), {"t": rng.randint(0, 7), "s": op})
+    case["ops"] = ops
+    if G.has_flat(case):
+        case["nomodel"] = True
+    return case
+
+
 class C07(Property):
     id = "C07"
     title = "flatten() is compositional and names every leaf by its position"
-    proof_module = "Proofs.C07Overlap"
-    level_text = "Lean 4 theorems on the flatten model: `flatten_compositional` (multiset equality with the members' own outputs at every node), `flatten_level_order`, `joined_opaque`, `keys_are_paths` (key = separator-join of names, list members by position), `keys_unique_paths` (equal keys imply equal name paths under SepSafe), `keys_nodup_noArray` / `keys_nodup_firstOnly` + `keys_firstOnly_iff` (for every conforming state of a wf schema without SparseDict the keys are pairwise distinct once every Array/MultiValue is cut to its first member, and the cut loses no key: the only repeated keys are those of the 2nd, 3rd, ... member of an Array/MultiValue). Tied to /repo by correspondence on element states after random list-mutation histories (incl. extended slices); oracle recomputes keys from positions."
-    level_note = 'Trusted: Lean kernel + 3 standard axioms; model Flatland/Flat.lean (flatten part); element state and leaf texts are extracted from the real element; that only Array/MultiValue members share a name path is checked by the oracle, not proved.'
+    proof_module = "Proofs.C07TreeHist"
+    level_text = ("Lean 4 theorems on the flatten model: `flatten_compositional` (multiset equality with the members' own outputs at every node), "
+                  "`flatten_level_order`, `joined_opaque`, `keys_are_paths` (key = separator-join of names, list members by position), "
+                  "`keys_unique_paths` (equal keys imply equal name paths under SepSafe), `keys_nodup_noArray` / `keys_nodup_firstOnly` + "
+                  "`keys_firstOnly_iff` (for every conforming state of a wf schema without SparseDict the keys are pairwise distinct once every "
+                  "Array/MultiValue is cut to its first member, and the cut loses no key). "
+                  "'List members contribute their CURRENT index' is a theorem over the tree model (Flatland/Tree.lean: ListSlots with STORED names, "
+                  "every list operation with its renumbering): `flattenTree` builds each key from the stored slot names as Element.flatten/flattened_name do; "
+                  "`flattenTree_positional`: on every tree all of whose Lists name their slots by position it equals the positional specification "
+                  "(`specFlatten`, keys from positions) pair for pair; `flatten_positional_history` / `flatten_positional_after_every_step`: that invariant — hence the equality — "
+                  "holds after every step of every history of the modelled calls (append/extend/+=/insert/item and slice assignment and deletion/pop/remove/"
+                  "reverse/sort/*=/clear/set/set_default and every dict-protocol call, successful or raising, on any element of a tree of any depth) from any "
+                  "constructed tree; `flattenTree_eq_flat`: on such trees flattenTree IS the flat model's flatten of the abstracted tree, so compositionality, "
+                  "keys-are-paths and uniqueness transfer (`tree_keys_are_paths`, `tree_flatten_compositional`); `flattenTree_stale_differs`: one stale slot name "
+                  "refutes the unconditional statement. Tied to /repo twice: flat family (element states after random list-mutation histories, model recomputes "
+                  "flatten) and tree-history family (the same history runs on the real library and on the Lean tree model; flatten() is compared after the "
+                  "construction and after every call, with both the shape walk and the literal pointer-walking rendering); the oracle recomputes keys from positions.")
+    level_note = ('Trusted: Lean kernel + 3 standard axioms; models Flatland/Flat.lean (flatten part), Flatland/Tree.lean + Flatland/C07Tree.lean; in the flat '
+                  'family element state and leaf texts are extracted from the real element; that only Array/MultiValue members share a name path is checked by '
+                  'the oracle, not proved; the theorems are about the shape walk `flattenTree` — that the literal rendering `flattenCode` (seen-set of identities, '
+                  'flattened_name through stored parent pointers) equals it on trees with unique identities and shape-consistent parent pointers (C08\'s invariant) is '
+                  'checked on every compared step, not proved.')
     technique = 'Lean 4 proof (queue BFS = level order, permutation with per-child outputs); differential correspondence; Python oracle'
     theorems = [
         "Flatland.Flat.Proofs.flatten_compositional",
@@ -178,15 +396,48 @@ class C07(Property):
         "Flatland.Flat.Proofs.keys_firstOnly_iff",
         "Flatland.Flat.Proofs.keys_nodup_needs_sepSafe",     # KF-C07-a: the hypothesis SepSafe is needed
         "Flatland.Flat.Proofs.ov_not_sepSafe",
+        # 'list members contribute their CURRENT index' over the tree model (stored slot names)
+        "Flatland.C07Tree.Proofs.flattenTree_positional",
+        "Flatland.C07Tree.Proofs.flattenTree_eq_flat",
+        "Flatland.C07Tree.Proofs.specFlatten_eq_flat",
+        "Flatland.C07Tree.Proofs.tree_keys_are_paths",
+        "Flatland.C07Tree.Proofs.tree_flatten_compositional",
+        "Flatland.C07Tree.Proofs.flattenTree_stale_differs",
+        "Flatland.C07Tree.Proofs.C07_positional_unconditional_fails",
+        # the invariant along histories (every list-protocol and dict-protocol call, any element of the tree)
+        "Flatland.C07Tree.Proofs.Inv.dp_of_dps",
+        "Flatland.C07Tree.Proofs.Inv.seqStep_dps",
+        "Flatland.C07Tree.Proofs.Inv.mapStep_dps",
+        "Flatland.C07Tree.Proofs.Inv.stepAt_dps",
+        "Flatland.C07Tree.Proofs.Inv.hrun_dps",
+        "Flatland.C07Tree.Proofs.Inv.hrun_dp_prefix",
+        "Flatland.C07Tree.Proofs.Inv.construct_dps",
+        "Flatland.C07Tree.Proofs.Inv.fromDefaults_dps",
+        "Flatland.C07Tree.Proofs.Inv.setNode_dps",
+        "Flatland.C07Tree.Proofs.Inv.setDefault_dps",
+        "Flatland.C07Tree.Proofs.Inv.dp_not_framed",
+        "Flatland.C07Tree.Proofs.Inv.dp_not_node_level",
+        "Flatland.C07Tree.Proofs.flatten_positional_history",
+        "Flatland.C07Tree.Proofs.flatten_positional_after_every_step",
+        "Flatland.C07Tree.Proofs.flatten_flat_after_every_step",
+        "Flatland.C07Tree.Proofs.constructed_dps",
+        "Flatland.C07Tree.Proofs.c07_positional_histories",
+        "Flatland.C07Tree.Proofs.flatten_positional_run",
     ]
     trusted_base = [
         "scalar text (.u) and compound text are inputs of the flat model (env tables computed from the real classes in isolation; subjects of C04/C18)",
-        "element state is extracted from the real element after set() and list mutations; flatten is recomputed by the model",
+        "element state is extracted from the real element after set() and list mutations; flatten is recomputed by the model (flat family)",
+        "tree-history family: nothing is extracted — schema, construction route and calls go to the real library and to the Lean tree model alike (executor Flatland/TreeJson.lean, shared with C08/C09); histories the tree model does not cover (it answers 'unsupported') are oracle-only and tagged so",
     ]
-    assumptions = ["the uniqueness THEOREMS need SepSafe names and separators (keys_nodup_needs_sepSafe: refuted without it, KF-C07-a); the oracle checks uniqueness for every separator; Array members are scalars (library assertion)"]
+    assumptions = ["the uniqueness THEOREMS need SepSafe names and separators (keys_nodup_needs_sepSafe: refuted without it, KF-C07-a); the oracle checks uniqueness for every separator; Array members are scalars (library assertion)",
+                   "history theorems: Element arguments handed to a call are themselves deep-positional subtrees (`OpArgsDPS`; true of everything the construction routes and earlier calls produce)"]
     rule = ("random schemas (Dict/SparseDict/List/Array/MultiValue/JoinedString/DateYYYYMMDD/scalars, depth<=4, hostile names and "
             "separators) x mostly-valid native values x 0-4 list mutations (insert/append/pop/del/slices/reverse/sort); non-trivial = "
-            ">=3 pairs emitted and at least one container below the root; distinct = canonical case JSON")
+            ">=3 pairs emitted and at least one container below the root; distinct = canonical case JSON. "
+            "Tree-history family (as many cases again): schemas whose keys pass through List slots (List of Dict with a nested List/Array/MultiValue, List of List, "
+            "Dict of Lists, random trees of depth<=3) x 5 construction routes x 1-12 calls from the C08/C09 generators (all list-protocol and dict-protocol calls, "
+            "plain values / fresh Elements / detached Elements as arguments, 10% hostile) on any container of the tree x 8 separators; flatten() of the root is "
+            "compared with the Lean tree model after every call; non-trivial = at least two calls changed what flatten() returns")
     quick_n = 2500
     thorough_n = 60000
 
@@ -212,9 +463,44 @@ class C07(Property):
             {"t": "dict", "name": "a", "opt": False, "mode": "dense", "fields": [S("_b")]}]},
             "kinds": kinds, "sep": "__", "value": {"d": [["a_", {"d": [["b", {"s": "1"}]]}], ["a", {"d": [["_b", {"s": "2"}]]}]]},
             "muts": []}
-        return [joined_in_dict, renumber, stepped, negpop, overlap]
+        # tree-history family
+        def TS(k, cid, name=None, subs=()):
+            return {"cid": cid, "k": k, "name": name, "opt": False, "policy": "subset", "minreq": False, "isa": [],
+                    "default": None, "subs": list(subs)}
+        li = TS("list", 1, "l", [TS("integer", 2, "i")])
+        # seeded C07-setitem-new-slot-before-index-check: a REJECTED `lst[len(lst)] = lst[0]` must not re-parent the member
+        rejected_alias = {"family": "tree-history", "sep": "_", "schema": li, "nomodel": True,
+                          "init": {"route": "ctor_value", "value": {"l": [10, 20, 30]}},
+                          "ops": [{"t": 0, "s": {"op": "setitem", "i": 3, "a": {"member": 0, "same": True}}},
+                                  {"t": 0, "s": {"op": "append", "a": {"v": 40}}},
+                                  {"t": 0, "s": {"op": "setitem", "i": "1", "a": {"member": 2, "same": True}}},
+                                  {"t": 0, "s": {"op": "pop", "i": 0}}]}
+        lod = TS("list", 1, "l", [TS("dict", 2, None, [TS("string", 3, "x"), TS("list", 4, "n", [TS("integer", 5)])])])
+        dval = lambda x, ns: {"d": [["x", x], ["n", {"l": ns}]]}
+        # the history of Proofs/C07TreeExamples.lean (insert(-1, ...), sort, del l[::2]) plus rejected calls in between
+        nested = {"family": "tree-history", "sep": "_", "schema": lod,
+                  "init": {"route": "ctor_value", "value": {"l": [dval("b", [1, 2]), dval("a", [3]), dval("c", [])]}},
+                  "ops": [{"t": 0, "s": {"op": "insert", "i": -1, "a": {"v": dval("0", [9])}}},
+                          {"t": 0, "s": {"op": "pop", "i": 7}},
+                          {"t": 0, "s": {"op": "sort", "key": "field", "field": "x", "rev": False}},
+                          {"t": 0, "s": {"op": "setitem", "i": 9, "a": {"v": dval("q", [])}}},
+                          {"t": 0, "s": {"op": "delslice", "sl": [None, None, 2]}},
+                          {"t": 0, "s": {"op": "remove", "a": {"v": dval("zz", [5])}}},
+                          {"t": 2, "s": {"op": "insert", "i": -1, "a": {"v": 7}}},
+                          {"t": 2, "s": {"op": "reverse"}}]}
+        # open KF-C07-b: a rejected insert (non-integer index) of an existing member re-parents it to an orphan slot
+        kf_b = {"family": "tree-history", "sep": "_", "schema": li, "nomodel": True,
+                "init": {"route": "ctor_value", "value": {"l": [10, 20, 30]}},
+                "ops": [{"t": 0, "s": {"op": "insert", "i": "1", "a": {"member": 0, "same": True}}},
+                        {"t": 0, "s": {"op": "append", "a": {"v": 40}}}]}
+        return [joined_in_dict, renumber, stepped, negpop, overlap, rejected_alias, nested, kf_b]
 
     def generate(self, rng, n, tier):
+        yield from self._generate_flat(rng, n, tier)
+        # tree-history family: as many histories again, run on the real code AND the Lean tree model
+        yield from G.mark_unmodelled(self, [gen_tree_case(rng) for _ in range(n)])
+
+    def _generate_flat(self, rng, n, tier):
         for _ in range(n):
             sep = rng.choice(fl.SEP_POOL)
             kinds = []
@@ -246,6 +532,17 @@ class C07(Property):
                 muts.append(m)
             yield {"schema": schema, "kinds": kinds, "sep": sep, "value": value, "muts": muts}
 
+    _tree_cache = (None, None)
+
+    def _run_tree(self, case):
+        key = canon(case)
+        if self._tree_cache[0] == key:
+            return self._tree_cache[1]
+        ex = TreeExec(case, tree_view(case["sep"]), tree_check(case["sep"]))
+        obs = ex.run()
+        self._tree_cache = (key, (obs, ex.failures))
+        return self._tree_cache[1]
+
     def _run(self, case):
         try:
             el = build(case)
@@ -255,6 +552,8 @@ class C07(Property):
         return el, applied
 
     def run_impl(self, case):
+        if is_tree(case):
+            return self._run_tree(case)[0]
         el, applied = self._run(case)
         if el is None:
             return applied
@@ -267,9 +566,13 @@ class C07(Property):
                 "_applied": applied}
 
     def has_model(self, case):
+        if is_tree(case):
+            return not case.get("nomodel")
         return not fl.digit_sep(case["sep"])
 
     def model_input(self, case, obs):
+        if is_tree(case):
+            return case
         if not obs or "skip" in obs or "_elem" not in obs:
             return {"schema": case["schema"], "sep": case["sep"], "elem": {"leaf": ""}, "env": fl.make_env([], [], [])}
         return {"schema": case["schema"], "sep": case["sep"], "elem": obs["_elem"], "env": obs["_env"]}
@@ -277,10 +580,31 @@ class C07(Property):
     def compare(self, impl_obs, model_obs):
         if impl_obs and "skip" in impl_obs:
             return None
+        if isinstance(model_obs, dict) and model_obs.get("unsupported"):
+            return None
+        if impl_obs and "steps" in impl_obs and isinstance(model_obs, dict) and "steps" in model_obs:
+            # tree-history family: name the first step at which the tree model and the code part
+            a, b = impl_obs["steps"], model_obs["steps"]
+            for i, (x, y) in enumerate(zip(a, b)):
+                if any("view_raises" in (st.get("view") or {}) for st in (x,)):
+                    return "step %d: observing the real tree raised %s" % (i, x["view"]["view_raises"])
+                for k in ("out",):
+                    if canon(x[k]) != canon(y[k]):
+                        return "step %d: call outcome impl=%s model=%s" % (i, canon(x[k])[:200], canon(y[k])[:200])
+                for k in ("flatten", "flatten_code", "positional", "spec_agrees"):
+                    if canon(x["view"].get(k)) != canon(y["view"].get(k)):
+                        return "step %d: %s impl=%s model=%s" % (i, k, canon(x["view"].get(k))[:300], canon(y["view"].get(k))[:300])
+            if len(a) != len(b):
+                return "number of steps impl=%d model=%d" % (len(a), len(b))
+            if model_obs.get("spec_agrees") is False:
+                return "flattenTree differs from the positional spec on a positional tree (spec_agrees=false)"
+            return None
         return super().compare(impl_obs, model_obs)
 
     def oracle(self, case):
         import flatland
+        if is_tree(case):
+            return list(self._run_tree(case)[1])
         el, applied = self._run(case)
         if el is None:
             return []
@@ -337,6 +661,19 @@ class C07(Property):
         return fails
 
     def classify(self, case, failure):
+        if is_tree(case) and failure.get("clause") in ("keys-are-positions", "name-paths-unique", "slots-named-by-position"):
+            # KF-C07-b: `List.insert(<non-integer index>, <element that already is a member>)` raises TypeError AFTER
+            # `_new_slot()` re-parented the member to a fresh, never stored slot named str(len(self)).
+            # KF-C07-c: `Sequence.__setitem__` / `Sequence.insert` (Array, MultiValue) set `value.parent = self` BEFORE
+            # `list.__setitem__` / `list.insert` reject the index.
+            # Class: such a rejected call (recognised by its shape when it ran: target class, op, index, argument is an
+            # existing member) happened at or before the failing step.  A failure without such a call — e.g. after a
+            # rejected item assignment on a LIST — is not in either class.
+            causes = failure.get("causes") or []
+            if "list-insert-nonint-index-of-member" in causes:
+                return "KF-C07-b"
+            if "array-rejected-placement-of-member" in causes:
+                return "KF-C07-c"
         # KF-C07-a predicts: the separator overlaps with the names (decided from the schema alone), the two
         # elements sit on DIFFERENT name paths, and the very same tree has unique keys once the separator
         # is one that occurs in no name — so a key that loses a path component is still reported
@@ -346,11 +683,49 @@ class C07(Property):
         return None
 
     def nontrivial(self, case, obs):
+        if is_tree(case):
+            # at least two calls changed what flatten() returns, and a key passes through a List slot
+            views = [st["view"] for st in obs["steps"]]
+            if any("view_raises" in v for v in views):
+                return True
+            changed = sum(1 for a, b in zip(views, views[1:]) if a["flatten"] != b["flatten"])
+            return changed >= 2 and any(len(v["flatten"]) >= 2 for v in views)
         if "skip" in obs:
             return False
         return len(obs["flatten"]) >= 3 and case["schema"]["t"] not in ("leaf", "joined")
 
     def tags(self, case, obs):
+        if is_tree(case):
+            if any("view_raises" in st["view"] for st in obs["steps"]):
+                return ["tree:view-raises"]
+            t = ["family=tree-history", "tree:model=" + ("oracle-only" if case.get("nomodel") else "compared"),
+                 "tree:root=" + case["schema"]["k"], "tree:route=" + case["init"]["route"], "tree:sep=%r" % case["sep"],
+                 "tree:ops=%d" % len(case["ops"])]
+            kinds = {x["k"] for x in G.walk_schemas(case["schema"])}
+            nested = any(x["k"] == "list" and any(y["k"] == "list" for y in G.walk_schemas(x["subs"][0]))
+                         for x in G.walk_schemas(case["schema"]))
+            if nested:
+                t.append("tree:nested-lists")
+            for k in sorted(kinds):
+                t.append("tree:has-" + k)
+            prev = obs["steps"][0]["view"]
+            for o, st in zip(case["ops"], obs["steps"][1:]):
+                out = st["out"]
+                if isinstance(out, dict) and "skip" in out:
+                    t.append("tree:skip:" + out["skip"].split(":")[0])
+                    prev = st["view"]
+                    continue
+                ran = st["view"].get("_ran")
+                if ran:
+                    res = out["exc"] if isinstance(out, dict) and "exc" in out else "ok"
+                    moved = "changed" if st["view"]["flatten"] != prev["flatten"] else "same"
+                    t.append("tree:ran:%s:%s" % (ran, "ok" if res == "ok" else "raised"))
+                    t.append("tree:step:%s:%s" % (res, moved))
+                    if moved == "changed":
+                        t.append("tree:flatten-changed-by:" + ran)
+                prev = st["view"]
+            t.append("tree:maxpairs=%d" % min(20, max(len(st["view"]["flatten"]) for st in obs["steps"])))
+            return sorted(set(t))
         if "skip" in obs:
             return ["skipped-set-rejected"]
         t = ["pairs=%d" % min(len(obs["flatten"]), 20), "sep=%r" % case["sep"]]
@@ -362,6 +737,13 @@ class C07(Property):
         return list(dict.fromkeys(t))
 
     def shrink_candidates(self, case):
+        if is_tree(case):
+            for c in G.shrink_history(case):
+                c["family"], c["sep"] = "tree-history", case["sep"]
+                yield c
+            if case["sep"] != "_":
+                yield dict(copy.deepcopy(case), sep="_")
+            return
         for i in range(len(case.get("muts", []))):
             c = copy.deepcopy(case)
             del c["muts"][i]
